@@ -337,7 +337,9 @@ fn reference(m: &SymModel, base: u64, ip: u64) -> Expect {
     let with_pub = Rec { ip, func: Some((p.name.clone(), base + p.addr, p.param)), ..Default::default() };
     match m.funcs.iter().filter(|f| func_range(f).is_some() && f.addr <= off).map(|f| f.addr).max() {
         Some(fa) if fa > p.addr => Expect::Exactly(none),
-        Some(fa) if fa == p.addr => Expect::Either(with_pub, none),
+        // a FUNC starting exactly at the PUBLIC's address lies between the PUBLIC and the address: it cuts the
+        // PUBLIC off (the statement's 'not cut off by an intervening FUNC'; the code's `<=`)
+        Some(fa) if fa == p.addr => Expect::Exactly(none),
         _ => Expect::Exactly(with_pub),
     }
 }
@@ -662,7 +664,7 @@ fn main() {
         def.assumptions = vec![
             "exact comparison is made when no two valid FUNC ranges intersect, PUBLIC addresses are distinct, STACK WIN records of one type do not intersect, and within the FUNC covering the address no two line records intersect and no two same-depth INLINE ranges intersect; otherwise only the statement's weaker promises are checked (reported FUNC contains the address; reported PUBLIC is the nearest at or below it and is not cut off by a FUNC that overlaps nothing; a FUNC that overlaps nothing is reported for its addresses; source line / inline frames come from records of the reported FUNC covering the address; bases never exceed the instruction)".into(),
             "an INLINE range of size 0 written inside (or at the start of) another range of the same depth and FUNC is treated as overlapping: the format does not define it, and the (depth,address) search then hides the enclosing range".into(),
-            "a PUBLIC exactly at the start address of the nearest preceding FUNC: the source comment says 'smaller', the code tests '<='; either 'that PUBLIC' or 'nothing' is accepted".into(),
+            "a PUBLIC exactly at the start address of the nearest preceding FUNC counts as cut off by that FUNC (the FUNC's range lies between the PUBLIC and the address)".into(),
             "inline nesting is the chain of consecutive depths 0,1,2,.. that cover the address (a depth-n range without a covering depth-(n-1) range is not part of the chain), as the INLINE record documentation defines nesting".into(),
             "FILE / INLINE_ORIGIN ids that are not defined yield no file name / no frame for that level (not an error)".into(),
         ];
